@@ -5,6 +5,7 @@ import (
 	"log/slog"
 	"net/http"
 	"reservoir/utils/typeutils"
+	"strings"
 	"time"
 )
 
@@ -106,10 +107,13 @@ func ParseHeaderDirective(header http.Header) *HeaderDirectives {
 				slog.Debug("Error parsing Range header", "error", err, "value", value)
 			}
 		case "Cache-Control":
-			if cc, err := parseCacheControl(value); err == nil {
+			// The field may be split over several header lines; all of them count.
+			if cc, err := parseCacheControl(strings.Join(values, ",")); err == nil {
 				hd.CacheControl.value = typeutils.Some(cc)
 			} else {
+				// Directives we cannot make sense of must not make the response look cacheable.
 				slog.Debug("Error parsing Cache-Control header", "error", err, "value", value)
+				hd.CacheControl.value = typeutils.Some(cacheControl{noCache: true})
 			}
 		case "Expires":
 			if t, err := time.Parse(http.TimeFormat, value); err == nil {
